@@ -1,6 +1,7 @@
 import BlockModes.Impl.Mem
 import BlockModes.Lemmas.Xor
 import BlockModes.Lemmas.MemCtsApi
+import BlockModes.Lemmas.MemWrapper
 /-
   C12 — in-place and buffer-to-buffer operation give identical results.
 
@@ -213,6 +214,35 @@ example :
     (MemCts.Op.cbc3d.mem C 2 [7, 9] (IOBuf.inplace [1, 2, 3, 4, 5])).map (·.out)
       = (MemCts.Op.cbc3d.mem C 2 [7, 9] (IOBuf.b2b [1, 2, 3, 4, 5] [200, 201, 202, 203, 204])).map (·.out) := by
   decide
+
+/-! ### the byte-level stream ciphers: `apply_keystream` in place vs `apply_keystream_b2b`
+
+  `Impl/MemWrapper.lean` mirrors `StreamCipherCoreWrapper::try_apply_keystream_inout` (the body behind `ctr::Ctr*`,
+  `ofb::Ofb`, `belt_ctr::BeltCtr`) on the in/out buffer: finish the buffered keystream block, whole blocks through the
+  core, refill the buffer for a trailing partial block — three `xor_in2out` phases over consecutive ranges. -/
+
+open Impl.MemWr Impl.MemCts Glue in
+/-- **any keystream core, any wrapper state reachable through the API** (one block of buffer, `pos ≤ bs`), **any data
+    length**: in place on `m`, and from `m` into an output buffer holding arbitrary `g`, the call writes the same bytes
+    and leaves the same state (core and buffer) — those of the value-level mirror `Wr.applyUnchecked` that C08, C10 and
+    C11 are about. -/
+theorem wrapper_apply_alias_indep {σ : Type} {K : Core σ} {P : σ → Prop} (hK : LenCore K P) (w : Nat) (s : Wr σ)
+    (hbuf : s.buffer.length = K.bs) (hpos : s.pos ≤ K.bs) (hP : P s.core) (m g : Bytes) (hg : g.length = m.length) :
+    ∃ a b, applyUncheckedMem K w s (IOBuf.inplace m) = some (a, (s.applyUnchecked K w m).2) ∧
+           applyUncheckedMem K w s (IOBuf.b2b m g) = some (b, (s.applyUnchecked K w m).2) ∧
+           a.out = b.out ∧ a.out = (s.applyUnchecked K w m).1 := by
+  obtain ⟨a, ha1, ha2⟩ := applyUncheckedMem_ok hK w s hbuf hpos hP (IOBuf.inplace m) (WF_inplace m)
+  obtain ⟨b, hb1, hb2⟩ := applyUncheckedMem_ok hK w s hbuf hpos hP (IOBuf.b2b m g) (WF_b2b m g hg.symm)
+  exact ⟨a, b, ha1, hb1, by rw [ha2, hb2]; rfl, ha2⟩
+
+open Impl.MemWr in
+/-- instances: the cores of /repo — all six CTR flavours (state invariant: the nonce words fill one block), BelT-CTR
+    (16-byte blocks), OFB (state of one block). -/
+theorem cores_are_length_regular (C : Cipher) (hC : C.Valid) (f : Spec.Flavor) (hbs : C.bs = 16) :
+    LenCore (Ctr.core C f) (fun cn => cn.nonce.length * f.cs = C.bs) ∧
+    LenCore (Belt.core C) (fun _ => True) ∧
+    LenCore (OfbCore.core C) (fun iv => iv.length = C.bs) :=
+  ⟨ctr_lenCore C hC f, belt_lenCore C hC hbs, ofb_lenCore C hC⟩
 
 /-! ### the model can tell the two forms apart -/
 
